@@ -24,6 +24,12 @@ Theorem C09_le_makespan : forall G tsf p lo hi,
 Proof. exact path_le_makespan. Qed.
 Print Assumptions C09_le_makespan.
 
+(* the makespan clause for EVERY path of an accepted graph (in particular for whichever maximum-weight path is reported) *)
+Theorem C09_makespan_guaranteed : forall N W p, span_okb N W = true -> is_path W p ->
+  path_weight p <= maxZ 0 (map c_ts N) - minZ 0 (map c_ts N).
+Proof. exact makespan_guaranteed. Qed.
+Print Assumptions C09_makespan_guaranteed.
+
 Theorem C09_reported_path_is_a_path : forall G nodes p, path_edges G nodes = Some p -> p <> [] ->
   is_path G p /\ path_start p = hd 0 nodes.
 Proof. exact path_edges_spec. Qed.
@@ -32,5 +38,5 @@ Print Assumptions C09_reported_path_is_a_path.
 (* non-vacuity: a diamond with a heavier lower branch *)
 Definition g09 : list edge := [mkEdge 0 1 2; mkEdge 1 3 2; mkEdge 0 2 1; mkEdge 2 3 5; mkEdge 3 4 0].
 Definition n09 : list cpnode := [mkN 0 10 0 true false; mkN 1 11 2 true false; mkN 2 12 1 true false; mkN 3 10 6 false false; mkN 4 11 9 false false].
-Example C09_nonvacuous : check_C09 n09 g09 [0; 1; 2; 3; 4] [0; 2; 3; 4] [[0; 2]; [2; 3]; [3; 4]] [10; 11; 12] = [true; true; true; true; true; true].
+Example C09_nonvacuous : check_C09 n09 g09 [0; 1; 2; 3; 4] [0; 2; 3; 4] [[0; 2]; [2; 3]; [3; 4]] [10; 11; 12] = [true; true; true; true; true; true; true].
 Proof. vm_compute. reflexivity. Qed.
